@@ -272,6 +272,13 @@ func RunWrap(sf base.ServerFactory, steps []Step, steer []byte, releaseEarly boo
 	if !releaseEarly {
 		res.TapeUsed = o4h.Tape.Since(mark)
 	}
+	collect(c, &res, fin, werr, op)
+	return res
+}
+
+// collect fills in what the endpoint did on its conn.
+func collect(c *Conn, resp *Result, fin bool, werr error, op *vlib.Op) {
+	res := *resp
 	res.Blocked = !fin
 	res.Panic = op.Panic
 	if fin {
@@ -316,7 +323,57 @@ func RunWrap(sf base.ServerFactory, steps []Step, steer []byte, releaseEarly boo
 	res.CloseByTimeout = res.Closes > 0 && c.LastReadTimeout
 	res.CloseOff = c.LastTimeoutOff
 	c.mu.Unlock()
-	return res
+	*resp = res
+}
+
+// Pending is a WrapConn call that was started and now sits in Read at the gate of its script
+// (a "g" step): a connection that was accepted earlier and completes its handshake later.
+type Pending struct {
+	c    *Conn
+	op   *vlib.Op
+	res  Result
+	werr error
+	gate chan struct{}
+}
+
+// StartWrap starts sf.WrapConn on a scripted conn whose script contains a "g" step and returns
+// once the endpoint waits there. steer feeds what WrapConn draws before its first Read.
+func StartWrap(sf base.ServerFactory, steps []Step, steer []byte) *Pending {
+	p := &Pending{gate: make(chan struct{})}
+	WrapMu.Lock()
+	o4h.Tape.Steer = append([]byte(nil), steer...)
+	mark := o4h.Tape.Mark()
+	p.res.Hour0 = o4h.Hour()
+	p.res.StartNs = NowNs()
+	c := NewConn(steps)
+	c.Gate = p.gate
+	p.c = c
+	p.res.Conn = c
+	p.op = c.ScriptConn.Start(func() { _, p.werr = sf.WrapConn(c) })
+	<-c.AtGate
+	p.res.TapeUsed = o4h.Tape.Since(mark)
+	o4h.Tape.Steer = nil
+	WrapMu.Unlock()
+	return p
+}
+
+// Finish opens the gate and waits for the call to end. steer feeds what a success draws (the
+// response padding). FinishNs in the result's EndNs is taken right before the gate opens... the
+// time handed to the model as the moment of the replay-filter submission is GateNs.
+func (p *Pending) Finish(steer []byte) (Result, int64) {
+	WrapMu.Lock()
+	o4h.Tape.Steer = append([]byte(nil), steer...)
+	mark := o4h.Tape.Mark()
+	gateNs := NowNs()
+	close(p.gate)
+	fin, _ := p.c.ScriptConn.WaitT(p.op, 120*time.Second)
+	p.res.EndNs = NowNs()
+	p.res.Hour1 = o4h.Hour()
+	p.res.TapeUsed = append(p.res.TapeUsed, o4h.Tape.Since(mark)...)
+	o4h.Tape.Steer = nil
+	WrapMu.Unlock()
+	collect(p.c, &p.res, fin, p.werr, p.op)
+	return p.res, gateNs
 }
 
 // Render prints the Go-side trace with offsets.
